@@ -29,17 +29,19 @@ RoundTrip(r) ==
 
 \* ---- C16
 \* `o` are the offsets reported by the object that wrote the bytes In(r)
-OffBasic(r, o) ==
+\* `cl` is the length of the payload the writing object holds
+OffBasic(r, o, cl) ==
     /\ o.lead = 0 /\ o.sig = SigAt
     /\ Magic(In(r), o.sig) /\ Magic(In(r), o.hdr)              \* a header intro begins at each header offset
-    /\ r.input_len - o.payload = r.content_len                   \* payload offset .. end = payload
+    /\ r.input_len - o.payload = cl                              \* payload offset .. end = payload
     /\ o.lead < o.sig /\ o.sig < o.hdr /\ o.hdr < o.payload
 OffExact(r, o) == HdrFits(In(r)) => (o.hdr = HdrAt(In(r)) /\ o.payload = PayloadAt(In(r)))
 Offsets(r) ==
     \* a parsed package wrote In(r) back (that is C01); its offsets describe those bytes
-    /\ (r.accepted /\ RoundTrip(r) => OffBasic(r, r.off) /\ OffExact(r, r.off))
+    /\ (r.accepted /\ RoundTrip(r) => OffBasic(r, r.off, r.content_len) /\ OffExact(r, r.off))
     \* bytes written by an in-memory package (built / signed / cleared / re-written)
-    /\ (Has(r, "off_mem") => OffBasic(r, r.off_mem) /\ OffExact(r, r.off_mem))
+    /\ (Has(r, "off_mem") => /\ OffBasic(r, r.off_mem, IF Has(r, "content_len_mem") THEN r.content_len_mem ELSE r.content_len)
+                              /\ OffExact(r, r.off_mem))
 
 \* ---- C09 (header part): packages emitted by the builder / signer are valid by rpm's rules
 Structure(r) ==
@@ -75,7 +77,8 @@ SLM(e, g) == Len(e) = Len(g) /\ \A i \in 1..Len(e) : SM(e[i], g[i])
 OptSLM(e, g) == IF "none" \in DOMAIN e THEN "none" \in DOMAIN g
                 ELSE "some" \in DOMAIN g /\ SLM(e.some, g.some)
 
-ErrMatch(e, g) == IsErr(g) /\ (g.err = e.err \/ e.err = "any")
+\* the property asks for "an error", not for a particular one: the kind the library reports is recorded but not compared
+ErrMatch(e, g) == IsErr(g)
 ResMatch(kind, e, g) ==
     IF IsErr(e) THEN ErrMatch(e, g)
     ELSE /\ ~IsErr(g)
@@ -146,6 +149,14 @@ Digests(r) ==
       /\ r.dig.payload_alt.rec = r.dig.payload_alt.calc
       /\ \A k \in 1..Len(r.dig.files) : r.dig.files[k].rec = r.dig.files[k].calc
 
+\* a package that is well formed by rpm's rules throughout (lead, signature header, main header - dribble entries
+\* allowed) can be read at all: refusing it denies every accessor its value.  (Judged on the metadata alone; the
+\* payload plays no part in parsing.)
+WellFormedPkg(r) ==
+    /\ LeadOk(In(r)) /\ HdrChkLoose(In(r), SigAt, 62)
+    /\ HdrFits(In(r)) /\ HdrChkLoose(In(r), HdrAt(In(r)), 63)
+Readable(r) == WellFormedPkg(r) => r.accepted
+
 \* every clause the event violates, as labels "<property>:<detail>" (the driver attributes them)
 Whys(r) ==
     IF r.event # "Pkg" THEN {r.event}
@@ -153,6 +164,7 @@ Whys(r) ==
          \cup (IF Offsets(r) THEN {} ELSE {"C16:Offsets"})
          \cup (IF Structure(r) THEN {} ELSE {"C09:Structure"})
          \cup {"C05:" \o a : a \in BadGets(r)}
+         \cup (IF Readable(r) THEN {} ELSE {"C05:refused"})
          \cup (IF Digests(r) THEN {} ELSE {"C08:Digests"})
 
 Init == l = 1 /\ rej = <<>> /\ nrej = 0
